@@ -37,6 +37,12 @@ type Case struct {
 	Handlers     []H  `json:"handlers"`
 	Publishes    int  `json:"publishes"`
 	PanicHandler bool `json:"panic_handler"`
+	// NilPH: the panic handler is explicitly nil: "option" = WithPanicHandler(nil)
+	// (an optional callback left unset by the application), "setter" =
+	// SetPanicHandler(nil) after New, "unset" = a real handler installed by
+	// option and removed again with SetPanicHandler(nil) before any publish.
+	// A nil handler is "no panic handler set".
+	NilPH string `json:"nil_ph,omitempty"`
 	// PHDelayUs makes the panic handler take this long (a slow reporter).
 	PHDelayUs int `json:"ph_delay_us,omitempty"`
 	// CancelLast: every publish carries a context of its own, and the last
@@ -168,6 +174,9 @@ func run(c *Case) *vkit.Outcome {
 			}
 		}))
 	}
+	if !c.PanicHandler && c.NilPH == "option" {
+		opts = append(opts, eventbus.WithPanicHandler(nil))
+	}
 	var obsErrs int32
 	if c.Obs {
 		opts = append(opts, eventbus.WithObservability(obsNop{&obsErrs}))
@@ -179,6 +188,9 @@ func run(c *Case) *vkit.Outcome {
 		opts = append(opts, eventbus.WithStore(eventbus.NewMemoryStore()))
 	}
 	bus := eventbus.New(opts...)
+	if (!c.PanicHandler && c.NilPH == "setter") || (c.PanicHandler && c.NilPH == "unset") {
+		bus.SetPanicHandler(nil)
+	}
 
 	anyAsync := false
 	for _, h := range c.Handlers {
@@ -315,7 +327,11 @@ func run(c *Case) *vkit.Outcome {
 		o.Failf("", "synchronous invocation order %v, expected %v", syncOrder, wantSync)
 		return o
 	}
-	if c.PanicHandler {
+	if c.PanicHandler && c.NilPH == "unset" && len(ph) != 0 {
+		o.Failf("", "the panic handler was removed with SetPanicHandler(nil) before the first publish, yet it was called %d times", len(ph))
+		return o
+	}
+	if c.PanicHandler && c.NilPH != "unset" {
 		key := func(c phCall) string { return fmt.Sprintf("%d|%d|%v|%v|%s", c.EvID, c.NumIn, c.Last, c.Kind, c.Val) }
 		var g, w []string
 		for _, x := range ph {
